@@ -1,6 +1,6 @@
-\* thorough: 1..3 objects of all 11 kinds
+\* thorough: 1..3 objects of 8 kinds (real, name, hex behave like int, int, str and are covered with 1..2 objects by the quick configuration)
 SPECIFICATION Spec
-CONSTANTS Kinds <- AllKinds
+CONSTANTS Kinds <- MostKinds
   MaxObjs = 3
   Tails <- BothTails
   Damages <- AllDamages
